@@ -117,7 +117,7 @@ def run(ctx):
     for (M, N) in shapes:
         for tn, td in tols:
             ctx.model('BondOps', f'm_svd_{M}x{N}_{tn}_{td}', constants=consts(M, N, 'svd', tn=tn, td=td),
-                      defs=dict(QALPH=D, WTS='{0,1,2,4}'), invariants=INV, timeout=1800)
+                      defs=dict(QALPH=D, WTS='{0,1,2,4}'), invariants=INV, timeout=1800, coverage=((M, N) == (2, 3) and (tn, td) == (1, 4)))
 
     recs, cases = [], []
 
